@@ -19,9 +19,10 @@ What runs here
                      ciphertext; absent / wrong passwords on every call of the reading API, under a watchdog;
                    - wrong passwords at scale on archives with numcyclespower = 0 (the reader honours the stored
                      value; assembled by the model from the real writer's metadata);
-                   - the encrypted header accepted under a wrong password (no plaintext CRC): the writer's second
-                     RNG draw is searched (independent crypto, 2^16 candidates) so that the wrong password's
-                     garbage begins 01 00, then replayed on the unmodified writer and reader.
+                   - the encrypted header under a wrong password whose garbage begins 01 00 (a valid empty header):
+                     the writer's second RNG draw is searched (independent crypto, 2^16 candidates), the archive is
+                     made by the unmodified writer and must be rejected through the CRC of the plain header that
+                     the descriptor carries; the same archive with that record cut out (foreign writer) is recorded.
 """
 import bz2
 import collections
@@ -66,8 +67,9 @@ ASSUMPTIONS = [
     "by exploration (IV freshness, leak search), not by the writer theorem",
     "what is stored in the clear BY CONSTRUCTION when the header is not encrypted: member names, sizes, times, "
     "attributes and the CRC-32 of every member's PLAINTEXT (plus sizes of every coder stage); with header encryption: "
-    "the packed sizes, the header's unpacked size, both IVs' positions (the header IV itself), the CRC of nothing "
-    "plaintext",
+    "the packed sizes, the header's unpacked size, the header IV, the CRC-32 of the header ciphertext's container "
+    "record and the CRC-32 of the PLAIN header (one 32-bit function of all names/sizes/CRCs/times and the folder IV; it "
+    "is what lets the reader reject a wrong password and what 7-Zip stores too)",
     "'delivered' = a reading call returns normally; bytes written to the destination before an exception is raised "
     "(CrcError after the member's garbage has been written) are recorded as an observation, see evidence "
     "'garbage_left_on_error'",
@@ -296,8 +298,11 @@ def indep_read(model, a, password):
                 data = cbc_decrypt(kdf_indep(password, cycles, salt), hiv, data)[:fo[3][i]]
             else:
                 data = decode_stage(method, props, data, fo[3][i])
+        hcrc = fo[5][0] if (fo[4] == 1 and fo[5]) else None
+        if hcrc is not None and zlib.crc32(data) != hcrc:
+            raise IndepError("decoded header does not have the stored CRC (wrong password?)")
         out.update(mode=2 if hiv is not None else 1, hraw=data, hpacked=hpacked, hcoders=coders, hiv=hiv,
-                   hrawlen=fo[3][-1], desc=nh, hpos=hpos)
+                   hrawlen=fo[3][-1], desc=nh, hpos=hpos, hcrc=hcrc)
         out["header"] = _mres(model.call("parse_header", [4096, list(data)]), "decoded header")
     else:
         raise IndepError("next header begins %r" % nh[:1])
@@ -645,7 +650,10 @@ def check_archives(ctx, rep, rng, tier):
                 fo = ind["folders"][0]
                 coders = fo[0]
                 want_draws = 1 + (1 if hmode == 2 else 0)
-                if ind["mode"] != hmode:
+                if hmode in (1, 2) and ind.get("hcrc") != zlib.crc32(ind["hraw"]):
+                    bad = ("header-crc", "the encoded header carries no CRC of the plain header (stored: %r): a wrong password "
+                                         "can only be told by the first decrypted byte" % (ind.get("hcrc"),))
+                elif ind["mode"] != hmode:
                     bad = ("mode", "header %s requested, but the archive's header is %s%s" % (
                         ["raw", "encoded", "ENCRYPTED"][hmode], ["raw", "encoded (not encrypted)", "encrypted"][ind["mode"]],
                         ": member names are readable without the password" if hmode == 2 else ""))
@@ -696,7 +704,8 @@ def check_archives(ctx, rep, rng, tier):
                                 cbc_encrypt(kdf_indep(pw), ind["hiv"], pad16(bytes(hr[1]))) != ind["hpacked"]:
                             bad = ("layout", "encrypted header is not CBC(key, second draw, pad16(Enc.header_raw(metadata)))")
                         else:
-                            pp_ = model.call("plain_parts", [len(ind["packs"][0]), ind["hcoders"], list(ind["hpacked"]), len(ind["hraw"])])
+                            pp_ = model.call("plain_parts", [len(ind["packs"][0]), ind["hcoders"], list(ind["hpacked"]), len(ind["hraw"]),
+                                                             zlib.crc32(ind["hraw"])])
                             if pp_[0] != 0 or bytes(pp_[1][0]) + ind["packs"][0] + ind["hpacked"] + bytes(pp_[1][1]) != a:
                                 bad = ("layout", "archive is not sig ++ packed ++ header ciphertext ++ descriptor of Enc.plain_parts")
             if bad:
@@ -1136,17 +1145,29 @@ def check_many_wrong(ctx, rep, rng, tier):
 
 
 # ------------------------------------------------------------------ encrypted header accepted under a wrong password
+def strip_header_crc(a):
+    """the same archive as a FOREIGN writer might have produced it: the CRC record (0A 01 crc32) cut out of the
+    encoded-header descriptor, signature header recomputed"""
+    scrc, ofs, size, ncrc = struct.unpack("<LQQL", a[8:32])
+    nh = a[32 + ofs:32 + ofs + size]
+    assert nh[-8:-6] == b"\x0a\x01" and nh[-2:] == b"\x00\x00", nh[-10:].hex()
+    nh2 = nh[:-8] + nh[-2:]
+    start = struct.pack("<QQL", ofs, len(nh2), zlib.crc32(nh2))
+    return a[:8] + struct.pack("<L", zlib.crc32(start)) + start + a[32:32 + ofs] + nh2
+
+
 def check_header_accept(ctx, rep, rng, tier):
-    """no plaintext CRC protects the encrypted header: search the writer's second RNG draw (2^16 candidates,
-    independent crypto) for one under which the WRONG password's decryption of the header begins 01 00, then replay on
-    the unmodified writer (cycles 19) and reader."""
+    """wrong password on an encrypted header whose garbage begins 01 00 (a valid EMPTY header): the writer's second
+    RNG draw is searched (2^16 candidates expected, independent crypto) so that this happens for a fixed wrong
+    password; the unmodified writer (cycles 19) then produces that archive.  py7zr stores the CRC of the plain header
+    in the descriptor, so the reader must reject it (Bad7zFile); the same archive with the CRC record cut out (a
+    foreign writer) shows what the record prevents."""
     model = ctx["model"]
     if model is None:
         return
     members = member_sets(rng, "quick")[1]
     pw, wrong = "Correct-Horse", "correct-horse"
     chain = "lzma2+aes"
-    # first pass: learn the raw header (it does not depend on the header IV)
     draw0 = bytes(range(16))
     rec = RecRng(stream=draw0 + bytes(16))
     t_now = 1700000000.0
@@ -1155,7 +1176,7 @@ def check_header_accept(ctx, rep, rng, tier):
         ph._time.time = lambda: t_now
         a0 = build(members, chain, pw, 2, rng=rec)
         ind0 = indep_read(model, a0, pw)
-        hraw = ind0["hraw"]
+        hraw = ind0["hraw"]       # does not depend on the header IV
         k, kw = kdf_indep(pw), kdf_indep(wrong)
         AES = _real_aes()
         ecb_k, ecb_w = AES.new(k, AES.MODE_ECB), AES.new(kw, AES.MODE_ECB)
@@ -1176,32 +1197,60 @@ def check_header_accept(ctx, rep, rng, tier):
         a = build(members, chain, pw, 2, rng=rec)
     finally:
         ph._time.time = saved
-    # the model's acceptance condition on the same bytes
     ind = indep_read(model, a, pw)
     garbage = cbc_decrypt(kw, found, ind["hpacked"])[:len(ind["hraw"])]
-    mres = model.call("parse_header", [4096, list(garbage)])
-    res, raw = sandbox_outcomes(a, members, [[wrong, "getnames"], [wrong, "extractall_factory"], [wrong, "testzip"], [pw, "extractall_factory"]])
+    cases = [[wrong, "getnames"], [wrong, "extractall_factory"], [wrong, "testzip"], [pw, "extractall_factory"]]
+    # (a) as written by py7zr
+    crc_opt = [] if ind.get("hcrc") is None else [ind["hcrc"]]
+    mres = model.call("checked_header_ok", [4096, crc_opt, list(garbage)])
+    res, raw = sandbox_outcomes(a, members, cases)
     if res is None:
         rep.violation("reading the header-encrypted archive with the wrong password took the sandbox down: %r" % raw,
                       {"kind": "header-accept-crash", "archive": a.hex()}, match_keys={"kind": "header-accept-crash"})
         return
     model_accepts = mres[0] == 0
     impl_accepts = res[0][0] in ("empty-archive", "no-bytes")
-    rep.extra["header_accept_search"].update(model_accepts=model_accepts, implementation=[r[:2] for r in res])
+    rep.count(("header-accept", "as-written"), nontrivial=True)
+    rep.extra["header_accept_search"].update(garbage_prefix=garbage[:4].hex(), stored_header_crc=ind.get("hcrc"),
+                                             model_accepts=model_accepts, implementation=[r[:2] + r[3:4] for r in res])
     if model_accepts != impl_accepts:
         rep.violation("model and implementation disagree on accepting the header garbage %s...: model %r, implementation %r" % (
-            garbage[:8].hex(), mres[:1], res[0][:2]), {"kind": "header-accept-disagree", "archive": a.hex()}, concrete=False)
+            garbage[:8].hex(), mres[:2], res[0][:2]), {"kind": "header-accept-disagree", "archive": a.hex()}, concrete=False)
     if res[3][0] != "delivered-original":
         rep.violation("the archive of the header-accept replay is not readable with the right password: %r" % (res[3][:2],),
                       {"kind": "header-accept-crash", "archive": a.hex()}, match_keys={"kind": "header-accept-unreadable"})
     if impl_accepts:
         rep.violation("encrypted header, WRONG password %r accepted: the unmodified writer (password %r, cycles 19, second RNG draw %s) "
                       "produced an archive that opens without error under the wrong password as an EMPTY archive (getnames() = [], "
-                      "extractall delivers nothing, testzip() = None): the encoded header carries no plaintext CRC, so garbage "
-                      "beginning 01 00 is a valid header; probability 2^-16 per (archive, wrong password)" % (wrong, pw, found.hex()),
+                      "extractall delivers nothing, testzip() = None): garbage beginning 01 00 is a valid header and no CRC of the "
+                      "plain header stops it; probability 2^-16 per (archive, wrong password)" % (wrong, pw, found.hex()),
                       {"kind": "header-accept", "password": pw, "with": wrong, "chain": chain, "draws": (draw0 + found).hex(),
                        "time": t_now, "members": [[n, d.hex()] for n, d in members], "archive": a.hex()},
                       match_keys={"kind": "header-accept", "shape": "wrong-password-empty-archive", "hmode": 2})
+    elif res[0][3].split(":")[0] != "Bad7zFile":
+        rep.extra["header_accept_search"]["note"] = "wrong password rejected, but not by the CRC comparison: %s" % res[0][3]
+    # (b) the same archive without the CRC record (what a foreign writer may produce): observation, not a verdict on py7zr's
+    #     own archives -- the weakness that remains for such archives
+    if ind.get("hcrc") is not None:
+        af = strip_header_crc(a)
+        mres2 = model.call("checked_header_ok", [4096, [], list(garbage)])
+        res2, raw2 = sandbox_outcomes(af, members, cases)
+        rep.count(("header-accept", "crc-record-cut-out"), nontrivial=True)
+        if res2 is None:
+            rep.extra["foreign_archive_without_header_crc"] = {"sandbox": str(raw2)[:200]}
+        else:
+            acc2 = res2[0][0] in ("empty-archive", "no-bytes")
+            rep.extra["foreign_archive_without_header_crc"] = {
+                "what": "an encoded header WITHOUT the CRC record (not written by py7zr any more): a wrong password whose garbage begins "
+                        "01 00 (probability 2^-16) opens the archive as an EMPTY archive without any error",
+                "wrong_password_outcomes": [r[:2] for r in res2[:3]], "right_password": res2[3][:2],
+                "model_accepts": mres2[0] == 0, "implementation_accepts": acc2}
+            if (mres2[0] == 0) != acc2:
+                rep.violation("model and implementation disagree on an encoded header without CRC record: model %r, implementation %r" % (
+                    mres2[:2], res2[0][:2]), {"kind": "header-accept-disagree", "archive": af.hex()}, concrete=False)
+            if res2[3][0] != "delivered-original":
+                rep.violation("an archive whose encoded header has no CRC record is not readable with the right password: %r" % (res2[3][:2],),
+                              {"kind": "header-nocrc-unreadable", "archive": af.hex()}, match_keys={"kind": "header-nocrc-unreadable"})
 
 
 # ------------------------------------------------------------------ decisions
